@@ -44,6 +44,8 @@ type Case struct {
 	// FullPathOverride: default_package_name is a full import path at which nothing lives; the
 	// import_path_overrides entry keyed by that full path names the real place of the structs.
 	FullPathOverride bool
+	// MixedCasePkg: the struct package has a Go name with capitals (go_package = "<name>Api").
+	MixedCasePkg bool
 	// RawParam, when set, replaces the computed parameter string (C16 error cases).
 	RawParam *string
 	// NoWrite: do not place the case in the Go workspace (L1-only cases).
@@ -83,6 +85,9 @@ func structPkgName(f *ir.File) string {
 // Prepare computes layout-dependent configuration (package names, overrides),
 // the spec, the YAML/param and the request. It does not run anything.
 func (w *Workspace) Prepare(c *Case) {
+	if c.MixedCasePkg && c.File.Dep == nil {
+		c.File.GoPackage = c.Name + "Api"
+	}
 	c.StructPkg = structPkgName(c.File)
 	base := "vw/cases/" + c.Name
 	if c.Separate && c.ForeignGoPackage && c.UseOverride && c.File.Dep == nil {
